@@ -1,5 +1,6 @@
 import NunavutVerif.Lemmas.GenCppSer
 import NunavutVerif.Lemmas.GenCppDe
+import NunavutVerif.Lemmas.GenCppFrame
 import NunavutVerif.Lemmas.DsdlRepr
 import NunavutVerif.Lemmas.DsdlDecode
 import NunavutVerif.Properties.C01Refine
@@ -153,6 +154,17 @@ theorem C04_genCpp_serialize_exits (o : Opts) (hs : o.Sound) (t : Ty) (hw : wf t
       rw [hsb] at this
       obtain ⟨buf', h1, _⟩ := this
       exact Or.inl ⟨_, h1, by omega⟩
+
+/-- Frame of the generated serializer (C04): a call that succeeds keeps the size of the buffer and leaves every byte
+from the returned size on exactly as it was — it writes nothing beyond what it reports (every `bitspan` setter
+changes exactly the addressed bits; unlike the C code there is no overrun to the next byte boundary).  No hypothesis
+on the type, the object or the options: every successful run of the model.  (The compiled code is checked for the
+same by the harness shim, `tail_untouched`.) -/
+theorem C04_genCpp_serialize_writes_within_reported_size (o : Opts) (t : Ty) (v : Val) (buf buf' : Buf) (n : Nat)
+    (hwf : WF buf) (h : serializeCpp o t v buf = .ok (buf', n)) :
+    buf'.length = buf.length ∧ WF buf' ∧ buf'.drop n = buf.drop n :=
+  ⟨(serializeCpp_frame o t v buf buf' n h).1, (serializeCpp_frame o t v buf buf' n h).2.1 hwf,
+    serializeCpp_tail_untouched o t v buf buf' n hwf h⟩
 
 /-! ## Deserialization -/
 
@@ -361,7 +373,7 @@ theorem C03_cpp_c_deserialize_agree (oX : Opts) (oC : GenC.Opts) (hX : oX.Sound)
   rw [deserializeCpp_refines oX hX hcl t hw hwC hc prior hp buf hwf,
     GenC.C02_genC_deserialize_bytes oC hC t hw hwC hc buf hwf]
 
-/-- Cross-target agreement with the **Python** model, serialization (C03): on the objects all three targets admit,
+/-- Cross-target agreement with the **Python** model, serialization (C03): on the objects all three targets accept,
 whenever one of the C++ / C / Python implementation-shaped models produces bytes, all three produce exactly these
 bytes (= `serBytes`); whenever the specification rejects the object, each reports its rendering of that error. -/
 theorem C03_cpp_c_py_serialize_agree (oX : Opts) (oC : GenC.Opts) (env : GenPy.Env) (hX : oX.Sound) (hC : oC.Sound)
@@ -426,6 +438,9 @@ example : (serializeCpp optAsserts exTy exVal (List.replicate 16 255)).map (fun 
     = (serBytes exTy exVal).mapError embedS := by decide +kernel
 
 example : serializeCpp optAsserts exTy exVal (List.replicate 15 255) = .error eTooSmall := by decide +kernel
+
+example : (serializeCpp optPlain exTy exVal (List.replicate 20 85)).map (fun r => r.1.drop r.2)
+    = .ok (List.replicate 7 85) := by decide +kernel
 
 example : serializeCpp optPlain (.struct [.varr .bool 2]) (.struct [.arr [.bool true, .bool true, .bool false]])
     (List.replicate 4 0) = .error eBadArrayLength := by decide +kernel
